@@ -52,6 +52,17 @@ theorem outcome_back_spec (rev : Rev) (w : World) (cur : Option Host) (d : Decl)
   | defBack svc port =>
     unfold outcome at h
     simp only [] at h
+    by_cases hps : ing.pseudo = true
+    · simp only [hps, if_true] at h
+      unfold addBackend at h
+      cases hres : resolve w ing.ns svc port with
+      | noSvc => simp [hres] at h
+      | noPort s => simp [hres] at h
+      | ok sv tg =>
+        simp [hres] at h
+        obtain ⟨rfl, rfl⟩ := h
+        exact ⟨rfl, svc, port, sv, tg, rfl, hres, rfl, by simp⟩
+    simp only [hps, if_false] at h
     by_cases hp : (cur.getD { name := host }).hasPath "/" "begin" = true
     · simp [hp] at h
     · simp only [hp] at h
@@ -131,7 +142,7 @@ theorem outcome_congr (rev : Rev) (w w' : World) (cur : Option Host) (d : Decl)
             | none => simp [hf] at hres
             | some s0 =>
               simp [hf] at hres
-              cases hfp : findServicePort s0 (ingPort p.port) with
+              cases hfp : portOf s0 p.port with
               | none => simp [hfp] at hres; rw [hres]
               | some _ => simp [hfp] at hres
           have hr : resolve w' ing.ns p.svc p.port = resolve w ing.ns p.svc p.port :=
@@ -148,7 +159,7 @@ theorem outcome_congr (rev : Rev) (w w' : World) (cur : Option Host) (d : Decl)
             | none => simp [hf] at hres
             | some s0 =>
               simp [hf] at hres
-              cases hfp : findServicePort s0 (ingPort p.port) with
+              cases hfp : portOf s0 p.port with
               | none => simp [hfp] at hres
               | some _ => simp [hfp] at hres; rw [hres.1]
           have hr : resolve w' ing.ns p.svc p.port = resolve w ing.ns p.svc p.port :=
@@ -160,6 +171,57 @@ theorem outcome_congr (rev : Rev) (w w' : World) (cur : Option Host) (d : Decl)
   | defBack svc port =>
     unfold outcome at hsame ⊢
     simp only [] at hsame ⊢
+    by_cases hps : ing.pseudo = true
+    · -- `syncDefaultBackend`: the same reads as the default backend of an ingress
+      simp only [hps, if_true] at hsame ⊢
+      have hab : addBackend w' ⟨ing, host, .defBack svc port⟩ svc port =
+          addBackend w ⟨ing, host, .defBack svc port⟩ svc port := by
+        unfold addBackend at hsame ⊢
+        cases hres : resolve w ing.ns svc port with
+        | noSvc =>
+          simp only [hres] at hsame
+          have := hsame _ rfl ⟨⟨.svc, ing.ns ++ "/" ++ svc⟩, .svc none⟩ (by simp)
+          simp [World.read] at this
+          have hr : resolve w' ing.ns svc port = .noSvc := by
+            unfold resolve; simp [this]
+          simp [hr]
+        | noPort s =>
+          simp only [hres] at hsame
+          have := hsame _ rfl ⟨⟨.svc, ing.ns ++ "/" ++ svc⟩, .svc (some s)⟩ (by simp)
+          simp [World.read] at this
+          have hs : w.findSvc (ing.ns ++ "/" ++ svc) = some s := by
+            unfold resolve at hres
+            cases hf : w.findSvc (ing.ns ++ "/" ++ svc) with
+            | none => simp [hf] at hres
+            | some s0 =>
+              simp [hf] at hres
+              cases hfp : portOf s0 port with
+              | none => simp [hfp] at hres; rw [hres]
+              | some _ => simp [hfp] at hres
+          have hr : resolve w' ing.ns svc port = resolve w ing.ns svc port :=
+            resolve_congr (by rw [this, hs])
+          rw [hr, hres]
+        | ok s tg =>
+          simp only [hres, matchingPods_nil hdr, List.map_nil, List.append_nil] at hsame
+          have h1 := hsame _ rfl ⟨⟨.svc, ing.ns ++ "/" ++ svc⟩, .svc (some s)⟩ (by simp)
+          have h2 := hsame _ rfl ⟨⟨.ep, ing.ns ++ "/" ++ svc⟩, .ep (w.findEp (ing.ns ++ "/" ++ svc))⟩ (by simp)
+          simp [World.read] at h1 h2
+          have hs : w.findSvc (ing.ns ++ "/" ++ svc) = some s := by
+            unfold resolve at hres
+            cases hf : w.findSvc (ing.ns ++ "/" ++ svc) with
+            | none => simp [hf] at hres
+            | some s0 =>
+              simp [hf] at hres
+              cases hfp : portOf s0 port with
+              | none => simp [hfp] at hres
+              | some _ => simp [hfp] at hres; rw [hres.1]
+          have hr : resolve w' ing.ns svc port = resolve w ing.ns svc port :=
+            resolve_congr (by rw [h1, hs])
+          rw [hr, hres]
+          simp [matchingPods_nil hdr, matchingPods_nil hdr', h2]
+      rw [hab]
+      exact ⟨rfl, rfl⟩
+    simp only [hps, if_false] at hsame ⊢
     by_cases hp : (cur.getD { name := host }).hasPath "/" "begin" = true
     · simp [hp]
     · simp only [hp] at hsame ⊢
@@ -184,7 +246,7 @@ theorem outcome_congr (rev : Rev) (w w' : World) (cur : Option Host) (d : Decl)
             | none => simp [hf] at hres
             | some s0 =>
               simp [hf] at hres
-              cases hfp : findServicePort s0 (ingPort port) with
+              cases hfp : portOf s0 port with
               | none => simp [hfp] at hres; rw [hres]
               | some _ => simp [hfp] at hres
           have hr : resolve w' ing.ns svc port = resolve w ing.ns svc port :=
@@ -201,7 +263,7 @@ theorem outcome_congr (rev : Rev) (w w' : World) (cur : Option Host) (d : Decl)
             | none => simp [hf] at hres
             | some s0 =>
               simp [hf] at hres
-              cases hfp : findServicePort s0 (ingPort port) with
+              cases hfp : portOf s0 port with
               | none => simp [hfp] at hres
               | some _ => simp [hfp] at hres; rw [hres.1]
           have hr : resolve w' ing.ns svc port = resolve w ing.ns svc port :=
